@@ -254,7 +254,7 @@ func schedWorker(p *schedParams, st *Stats) {
 			break
 		}
 		schedRunOne(p, st, genSchedSpec(p, c, run, false))
-		if len(st.Trouble) > 0 {
+		if len(st.Trouble) > 0 || stopAtFirst && len(st.Violations) > 0 {
 			return
 		}
 		for _, v := range st.Violations {
